@@ -229,7 +229,7 @@ theorem utf8_split_ok (st : St) (chunks : Buf) :
 theorem utf8_roundtrip (cps : List Nat) (h : ∀ cp ∈ cps, isScalar cp) : decode .s0 (encStr cps) = some (.s0, cps) :=
   decode_encStr cps h
 
-/-- **Characters through ONE decoder** (every data type of a channel before repair 7b04301; each single data type
+/-- **Characters through ONE decoder** (every data type of a channel before repair 98283c0; each single data type
     since): if the delivered chunks carry the same tagged byte stream as the strings the
     peer wrote (what `stream_inv` gives once everything is delivered), the text handed to `data_received`, per
     datatype and in order, is exactly the text written — however the stream was cut — and the final
@@ -243,7 +243,7 @@ theorem text_delivered_is_text_written (writes : List (List Nat × DType))
   rw [decodeChunks_tagged, hst]
   exact decodeTagged_writes writes hsc
 
-/-- **Characters, per data type** (the code since repair 7b04301: one decoder per data type).  If, for every data
+/-- **Characters, per data type** (the code since repair 98283c0: one decoder per data type).  If, for every data
     type, the delivered chunks carry the BYTES of the strings written with that data type — nothing is assumed
     about where packets are cut or how packets of different data types are interleaved, so also a sender which
     relays bytes and switches from stdout to stderr in the middle of a character — then no decode raises, the text
@@ -273,7 +273,7 @@ theorem text_per_datatype_end_to_end (ca cb : SideCfg) (evs : List Event) (s : S
   rw [hrb, hfl, hsb] at this
   simpa [bytesOfType, hw t] using this
 
-/-- **Witness for the code BEFORE repair 7b04301** (`Variant.preFix`: one decoder for all data types).  A sender
+/-- **Witness for the code BEFORE repair 98283c0** (`Variant.preFix`: one decoder for all data types).  A sender
     relaying bytes wrote "€\n" on stdout and "E" on stderr; the stdout bytes were cut after `E2 82` and the stderr
     packet came in between.  Each data type is valid UTF-8, yet the shared decoder raises on the stderr packet
     (→ `ProtocolError`, the whole connection is closed); one decoder per data type delivers both texts. -/
@@ -292,7 +292,7 @@ theorem shared_decoder_miscredits_character_preFix :
 
 /-! ### text channels: the application closes in the middle of a character -/
 
-/-- **No decode error after the application's `close()`** (since repair 9fcdbb2, for ANY peer).  Whatever state a
+/-- **No decode error after the application's `close()`** (since repair afe8b9e, for ANY peer).  Whatever state a
     text endpoint is in — a partial character pending in any decoder — once its application calls `close()` no
     sequence of later events (DATA, EOF, CLOSE, WINDOW_ADJUST from the peer, further application calls) ends in a
     decode error: later data is dropped undecoded, `_discard_recv` has reset the decoders, so the final
@@ -331,7 +331,7 @@ def textChan : TChan := { c := Chan.opened 100 [1] [] true 100 100 .no, ds := []
 def closeMidCharRun : List Ev :=
   [.recv (.data none [0xE2, 0x82, 0xAC, 0xE2]), .close, .recv (.data none [0x82, 0xAC]), .recv .eof]
 
-/-- **Witness for the code BEFORE repair 9fcdbb2** (`resetOnDiscard := false`): the honest peer's EOF after the
+/-- **Witness for the code BEFORE repair afe8b9e** (`resetOnDiscard := false`): the honest peer's EOF after the
     application's `close()` in the middle of a character is answered with a decode error — `ProtocolError`, the
     connection and every other channel on it are gone -/
 theorem close_midchar_then_eof_fatal_preFix :
@@ -354,7 +354,7 @@ theorem model_variant_is_the_code :
 /-! ### text channels: encodings whose codec keeps state across writes (utf-8-sig, utf-16, utf-32)
 
   `SSHChannel.write` sends every string of a data type through ONE incremental encoder (per data type since repair
-  7b04301, so every data type is a stream of its own with its own mark), `_deliver_data` every packet of that data
+  98283c0, so every data type is a stream of its own with its own mark), `_deliver_data` every packet of that data
   type through ONE incremental decoder.  For `utf-8-sig`, `utf-16`, `utf-32` the encoder state is "mark already sent",
   the decoder state "mark already consumed" (plus the bytes of an incomplete character).  The body codecs UTF-8,
   UTF-16-LE, UTF-32-LE are modelled byte by byte (`Model/ChannelText.lean`); what is NOT modelled: big-endian
@@ -430,7 +430,7 @@ theorem text_codec_objects_in_code :
 
 /-! ### channel requests and tunnel channels -/
 
-/-- **Tie to the code** (repair b98700f): `SSHServerChannel._start_session` refuses a `shell` / `exec` /
+/-- **Tie to the code** (repair e7dbee0): `SSHServerChannel._start_session` refuses a `shell` / `exec` /
     `subsystem` request once one has succeeded, so the session is started once, by one request, and the data path
     of the model — which has no event for such a request — is the code's.  (`_report_response` still answers a
     successful request of these kinds with `session_started()` and `resume_reading()`: that is how the FIRST one
@@ -438,7 +438,7 @@ theorem text_codec_objects_in_code :
 theorem second_session_request_refused :
     Gen.C07.secondSessionRequestRefused = true ∧ Gen.C07.sessionRequestResumesReading = true := by decide
 
-/-- **Witness for the code BEFORE repair b98700f**: the application has paused reading, three bytes wait in the
+/-- **Witness for the code BEFORE repair e7dbee0**: the application has paused reading, three bytes wait in the
     receive buffer; the peer's second `shell` request hands them to the session (a freshly started second handler,
     with the stream API: the first handler never sees them) and leaves reading resumed although the application
     never called `resume_reading()` -/
